@@ -160,7 +160,8 @@ CLAIMED = {
         ref='DESIGN.md §4 C02'),
     'C03': dict(
         text='MC_LSM: TLC checks the LDM/STM pseudocode loops against the property wording (k-th lowest register <-> k-th word, '
-             'exact footprint, write-back value, PUSH;POP identity) for structured lists (quick) / all 2^16 lists (thorough) '
+             'exact footprint, write-back value, PUSH;POP identity) for structured lists (quick) / + every 29th of the 2^16 lists and '
+             'all lists with <= 2 or >= 15 registers (thorough) '
              'x IA/IB/DA/DB x W x base incl. wrap. Conformance: random and structured lists for ARM LDM/STM, 16-bit '
              'PUSH/POP/LDM/STM, 32-bit LDM/STM/PUSH/POP and PUSH;POP programs executed by the real code, full state judged by TLC.',
         note='user-bank / exception-return LDM/STM forms, SRS and RFE are not specified yet (envelope only); registers loaded '
